@@ -97,6 +97,14 @@ class Ret(Exception):
         self.v = v
 
 
+class Continue(Exception):
+    pass
+
+
+class Break(Exception):
+    pass
+
+
 class Interp:
     """evaluates one constructor body on argument shapes; `ops`: name of the operator built by a plain mkFun in this constructor"""
 
@@ -185,6 +193,10 @@ class Interp:
             self.loop(st)
         elif k == 'throw':
             raise Thrown()
+        elif k == 'continue':
+            raise Continue()
+        elif k == 'break':
+            raise Break()
         else:
             raise Unmodelled('statement kind %s at line %s' % (k, st.get('ln')))
 
@@ -194,11 +206,28 @@ class Interp:
                 self.block(lp['init'])
             n = 0
             while lp.get('cond') is None or self.truth(lp['cond']):
-                self.block(lp['body'])
+                try:
+                    self.block(lp['body'])
+                except Continue:
+                    pass
+                except Break:
+                    break
                 if lp.get('inc') is not None:
                     self.val(lp['inc'])
                 n += 1
-                if n > 16:
+                if n > 64:
+                    raise Unmodelled('loop at line %s does not terminate on the abstract arguments' % lp.get('ln'))
+        elif lp.get('kind') == 'while':
+            n = 0
+            while self.truth(lp['cond']):
+                try:
+                    self.block(lp['body'])
+                except Continue:
+                    pass
+                except Break:
+                    break
+                n += 1
+                if n > 400:
                     raise Unmodelled('loop at line %s does not terminate on the abstract arguments' % lp.get('ln'))
         elif lp.get('kind') == 'range':
             seq = self.val(lp['range'])
@@ -206,7 +235,12 @@ class Interp:
                 raise Unmodelled('range loop over a non-list at line %s' % lp.get('ln'))
             for item in list(seq):
                 self.env[lp['var']] = item
-                self.block(lp['body'])
+                try:
+                    self.block(lp['body'])
+                except Continue:
+                    continue
+                except Break:
+                    break
         else:
             raise Unmodelled('loop kind %s at line %s' % (lp.get('kind'), lp.get('ln')))
 
@@ -292,6 +326,8 @@ class Interp:
             return self.val(e['t']) if self.truth(e['c']) else self.val(e['f'])
         if k in ('new', 'init'):
             items = e.get('e') or e.get('a') or []
+            if (e.get('t') or '').startswith(('Map<', 'opensmt::Map<')):
+                return {}
             vals = [self.val(x) for x in items]
             if 'PtAsgn' in (e.get('t') or '') and 'vec' not in (e.get('t') or '') and len(vals) == 2:
                 return ('asgn', vals[0], vals[1])
@@ -311,8 +347,8 @@ class Interp:
             i = self.val(args[0])
             if isinstance(base, list) and isinstance(i, int) and 0 <= i < len(base):
                 return base[i]
-            if isinstance(base, tuple) and base and base[0] == 'pterm' and i == 0:
-                return base[1]
+            if isinstance(base, tuple) and base and base[0] == 'pterm' and isinstance(i, int) and 0 <= i < len(base) - 1:
+                return base[i + 1]
             if base == ('symmap',):
                 return ('sym', self.default_op)
             raise Unmodelled('index at line %s' % e.get('ln'))
@@ -338,6 +374,23 @@ class Interp:
             b = self.val(e['recv'])
             if isinstance(b, list):
                 return len(b)
+            if isinstance(b, tuple) and b and b[0] == 'pterm':
+                return len(b) - 1
+        if e.get('recv') is not None and m in ('has', 'insert') and isinstance(self.env.get(path_of(e['recv']) or ''), dict):
+            d = self.env[path_of(e['recv'])]
+            key = self.val(args[0])
+            if m == 'has':
+                return key in d
+            d[key] = self.val(args[1]) if len(args) > 1 else True
+            return None
+        if e.get('recv') is not None and m in ('last', 'pop') and isinstance(self.env.get(path_of(e['recv']) or ''), list):
+            lst = self.env[path_of(e['recv'])]
+            if not lst:
+                raise Unmodelled('%s on an empty vector at line %s' % (m, e.get('ln')))
+            return lst[-1] if m == 'last' else lst.pop()
+        if m in ('isOr', 'isAnd', 'isEquality') and args:
+            v = self.val(args[0])
+            return isinstance(v, tuple) and v[0] == {'isOr': 'or', 'isAnd': 'and', 'isEquality': 'eq'}[m]
         if e.get('recv') is not None and m in ('push', 'push_back', 'clear', 'shrink', 'capacity', 'begin', 'end'):
             b = self.val(e['recv'])
             if isinstance(b, list):
@@ -375,7 +428,11 @@ class Interp:
                 return ('pterm', ('v', v[1], True))
             if v[0] == 'not':
                 return ('pterm', v[1])
-            raise Unmodelled('getPterm of a non-negation at line %s' % e.get('ln'))
+            if v[0] in ('and', 'or', 'eq', 'xor', 'ite', 'distinct'):
+                return ('pterm',) + tuple(v[1:])
+            if v[0] in ('u', 'c', 'v', 'T', 'F'):
+                return ('pterm',)
+            raise Unmodelled('getPterm of %r at line %s' % (v, e.get('ln')))
         if m == 'hasSortBool':
             return not self.value_mode
         if m == 'isConstant':
